@@ -50,7 +50,7 @@ def entry_state(C, ctxkind, next_state, pstate, in_array, cbname):
     lay = C.lay
     st = C.I.new_state()
     w8 = lay.parser['depth'][1] * 8
-    md = st.fresh('cfg:max_depth', w8, 1, 255 if w8 == 8 else (1 << w8) - 1)
+    md = st.fresh('cfg:max_depth', w8, 1, 255 if w8 == 8 else lay.objmax // lay.ssize)
     bs = st.fresh('cfg:buffer_size', lay.szw, 2, lay.objmax)
     C.parser_regions(st, Aff.sym(bs), Aff.sym(md))
     F = lay.parser
